@@ -7,8 +7,10 @@
 #include <math.h>
 
 #include <limits>
+#include <memory>
 #include <new>
 #include <type_traits>
+#include <utility>
 
 #include <phosg/Encoding.hh>
 
@@ -164,98 +166,83 @@ static inline bool op_defined(int op, T init, R d) {
   }
 }
 
+// what an operator expression yields, besides its value: on the native type `x op= d`, `x = v`, `++x`, `--x` are lvalues
+// designating x itself (so `(x += a) += b`, `(x <<= 4) |= n`, `(x -= a) = b`, `++(x = v)` update x), `x++` / `x--` are prvalues.
+// Observed at run time from whatever the operator is declared to return, so the harness compiles against either form.
+enum RetKind {
+  RET_NONE = 0,
+  RET_LVALUE_SELF, // an lvalue designating the object the operator was applied to
+  RET_LVALUE_OTHER, // an lvalue designating something else
+  RET_CLASS_TEMP, // a temporary of class type: a further mutating operator compiles and acts on the temporary
+  RET_SCALAR_TEMP, // a scalar prvalue: a further mutating operator does not compile
+};
+
 struct OpResult {
   uint64_t stored = 0; // bits of the value held afterwards
   uint64_t returned = 0; // bits of the value of the operator expression (converted to T)
   bool has_ret = false;
-  bool ret_is_self = true; // operators returning a reference must return the object itself
+  int ret_kind = RET_NONE;
 };
 
-template <typename T, typename R>
-static inline OpResult native_op(int op, T init, R d) {
-  T x = init;
+template <typename T, typename O, typename Q>
+static inline void note_ret(OpResult& r, const O& obj, Q&& q) {
+  r.has_ret = true;
+  if constexpr (std::is_lvalue_reference_v<Q>) {
+    r.ret_kind = (static_cast<const void*>(std::addressof(q)) == static_cast<const void*>(std::addressof(obj))) ? RET_LVALUE_SELF : RET_LVALUE_OTHER;
+  } else {
+    r.ret_kind = std::is_class_v<std::remove_cvref_t<Q>> ? RET_CLASS_TEMP : RET_SCALAR_TEMP;
+  }
+  r.returned = to_bits<T>(static_cast<T>(q));
+}
+
+// one operator applied to `x` (a native variable or a wrapper that already holds the initial value)
+template <typename T, typename X, typename R>
+static inline OpResult apply_op(int op, X& x, R d) {
   OpResult r;
-  auto ref = [&](T& q) {
-    r.has_ret = true;
-    r.ret_is_self = (&q == &x);
-    r.returned = to_bits<T>(q);
-  };
-  auto val = [&](T q) {
-    r.has_ret = true;
-    r.returned = to_bits<T>(q);
-  };
   switch (op) {
     case OP_CONSTRUCT:
     case OP_COPY:
     case OP_STORE_RAW: break;
-    case OP_ASSIGN: ref(x = static_cast<T>(d)); break;
-    case OP_STORE: x = static_cast<T>(d); break;
-    case OP_ADD: ref(x += d); break;
-    case OP_SUB: ref(x -= d); break;
-    case OP_MUL: ref(x *= d); break;
-    case OP_DIV: ref(x /= d); break;
-    case OP_PREINC: ref(++x); break;
-    case OP_POSTINC: val(x++); break;
-    case OP_PREDEC: ref(--x); break;
-    case OP_POSTDEC: val(x--); break;
+    case OP_ASSIGN: note_ret<T>(r, x, x = static_cast<T>(d)); break;
+    case OP_STORE:
+      if constexpr (std::is_class_v<X>) x.store(static_cast<T>(d));
+      else x = static_cast<T>(d);
+      break;
+    case OP_ADD: note_ret<T>(r, x, x += d); break;
+    case OP_SUB: note_ret<T>(r, x, x -= d); break;
+    case OP_MUL: note_ret<T>(r, x, x *= d); break;
+    case OP_DIV: note_ret<T>(r, x, x /= d); break;
+    case OP_PREINC: note_ret<T>(r, x, ++x); break;
+    case OP_POSTINC: note_ret<T>(r, x, x++); break;
+    case OP_PREDEC: note_ret<T>(r, x, --x); break;
+    case OP_POSTDEC: note_ret<T>(r, x, x--); break;
     default:
       if constexpr (std::is_integral_v<T> && std::is_integral_v<R>) {
         switch (op) {
-          case OP_MOD: ref(x %= d); break;
-          case OP_AND: ref(x &= d); break;
-          case OP_OR: ref(x |= d); break;
-          case OP_XOR: ref(x ^= d); break;
-          case OP_SHL: ref(x <<= d); break;
-          case OP_SHR: ref(x >>= d); break;
+          case OP_MOD: note_ret<T>(r, x, x %= d); break;
+          case OP_AND: note_ret<T>(r, x, x &= d); break;
+          case OP_OR: note_ret<T>(r, x, x |= d); break;
+          case OP_XOR: note_ret<T>(r, x, x ^= d); break;
+          case OP_SHL: note_ret<T>(r, x, x <<= d); break;
+          case OP_SHR: note_ret<T>(r, x, x >>= d); break;
         }
       }
   }
-  r.stored = to_bits<T>(x);
+  if constexpr (std::is_class_v<X>) r.stored = to_bits<T>(x.load());
+  else r.stored = to_bits<T>(x);
   return r;
+}
+
+template <typename T, typename R>
+static inline OpResult native_op(int op, T init, R d) {
+  T x = init;
+  return apply_op<T, T, R>(op, x, d);
 }
 
 // the same operator on a wrapper that already holds the initial value
 template <typename W, typename T, typename R>
 static inline OpResult wrapper_op(int op, W& w, R d) {
-  OpResult r;
-  // the compound operators return a reference to the (base-class) object
-  auto ref = [&](auto& q) {
-    r.has_ret = true;
-    r.ret_is_self = (static_cast<const void*>(&q) == static_cast<const void*>(&w));
-    r.returned = to_bits<T>(static_cast<T>(q));
-  };
-  auto val = [&](T q) {
-    r.has_ret = true;
-    r.returned = to_bits<T>(q);
-  };
-  switch (op) {
-    case OP_CONSTRUCT:
-    case OP_COPY:
-    case OP_STORE_RAW: break;
-    case OP_ASSIGN: ref(w = static_cast<T>(d)); break;
-    case OP_STORE: w.store(static_cast<T>(d)); break;
-    case OP_ADD: ref(w += d); break;
-    case OP_SUB: ref(w -= d); break;
-    case OP_MUL: ref(w *= d); break;
-    case OP_DIV: ref(w /= d); break;
-    case OP_PREINC: val(++w); break;
-    case OP_POSTINC: val(w++); break;
-    case OP_PREDEC: val(--w); break;
-    case OP_POSTDEC: val(w--); break;
-    default:
-      if constexpr (std::is_integral_v<T> && std::is_integral_v<R>) {
-        switch (op) {
-          case OP_MOD: ref(w %= d); break;
-          case OP_AND: ref(w &= d); break;
-          case OP_OR: ref(w |= d); break;
-          case OP_XOR: ref(w ^= d); break;
-          case OP_SHL: ref(w <<= d); break;
-          case OP_SHR: ref(w >>= d); break;
-        }
-      }
-  }
-  r.stored = to_bits<T>(w.load());
-  return r;
+  return apply_op<T, W, R>(op, w, d);
 }
 
 // comparison outcome codes (0 = all clauses hold)
@@ -270,7 +257,7 @@ enum Verdict {
   V_RAW_BYTES, // bytes after the operation are not the named-order encoding of the native result
   V_STORED, // load() after the operation differs from the native result
   V_RETURNED, // value of the operator expression differs from the native one
-  V_RETURNED_REF, // operator returning a reference did not return the object
+  V_RETURNED_REF, // operator that yields the object itself (an lvalue) on the native type did not return the object
   V_LOAD_RAW, // load_raw()/store_raw() disagree with the object bytes
   V_COPY, // copy construction / copy assignment changed the bytes
 };
@@ -341,7 +328,14 @@ static inline Verdict compare_op(int endian, int op, T init, R d, Detail* det = 
   if (nat.has_ret) {
     if (!wr.has_ret) return fail(V_RETURNED, 0, nat.returned);
     if (!same(wr.returned, nat.returned)) return fail(V_RETURNED, wr.returned, nat.returned);
-    if (!wr.ret_is_self) return fail(V_RETURNED_REF, 0, 1);
+    if (nat.ret_kind == RET_LVALUE_SELF) {
+      // = and the compound assignments must hand back the object itself. ++x / --x may also hand back a scalar prvalue
+      // (weaker than the native lvalue, but nothing that compiles can then behave differently); a class-type temporary
+      // or a reference to another object lets `++(++x)` compile and act on the wrong object.
+      bool pre = (op == OP_PREINC || op == OP_PREDEC);
+      bool ok = wr.ret_kind == RET_LVALUE_SELF || (pre && wr.ret_kind == RET_SCALAR_TEMP);
+      if (!ok) return fail(V_RETURNED_REF, static_cast<uint64_t>(wr.ret_kind), RET_LVALUE_SELF);
+    }
   }
   return V_OK;
 }
@@ -411,6 +405,169 @@ static void run_ops(const Case& c) {
   uint64_t rev = 0;
   for (int i = 0; i < sz; i++) rev |= ((init >> (8 * i)) & 0xFF) << (8 * (sz - 1 - i));
   if (top || rev != init) ctx().nontrivial_case();
+}
+
+// ---------------------------------------------------------------- chained operator expressions
+
+// `(x op1 d1) op2 d2`: on the native type the inner expression is x itself, so the outer operator updates x. The stored
+// value of the ORIGINAL object and the value of the whole expression must be what the same expression yields natively.
+// First operators: =, the ten compound assignments, ++x, --x (those that yield an lvalue natively); second operators:
+// the same plus x++ and x--.  Where the wrapper's first operator yields a scalar prvalue the chained expression does
+// not compile for the wrapper (nothing to compare): counted as a class, not judged.
+
+static inline bool chain_first_op(int op) { return op == OP_ASSIGN || op_is_binary(op) || op == OP_PREINC || op == OP_PREDEC; }
+static inline bool chain_second_op(int op) { return op == OP_ASSIGN || op_is_arith(op); }
+
+// applies op2 to the result `q` of the first operator, keeping its value category. Returns false when that does not compile.
+template <typename T, typename Q, typename R>
+static inline bool chain_second(int op2, Q&& q, R d, uint64_t* ret) {
+#define C03_SECOND(code, expr)                        \
+  case code:                                          \
+    if constexpr (requires { expr; }) {               \
+      *ret = to_bits<T>(static_cast<T>(expr));        \
+      return true;                                    \
+    } else {                                          \
+      return false;                                   \
+    }
+  switch (op2) {
+    C03_SECOND(OP_ASSIGN, std::forward<Q>(q) = static_cast<T>(d))
+    C03_SECOND(OP_ADD, std::forward<Q>(q) += d)
+    C03_SECOND(OP_SUB, std::forward<Q>(q) -= d)
+    C03_SECOND(OP_MUL, std::forward<Q>(q) *= d)
+    C03_SECOND(OP_DIV, std::forward<Q>(q) /= d)
+    C03_SECOND(OP_PREINC, ++std::forward<Q>(q))
+    C03_SECOND(OP_POSTINC, std::forward<Q>(q)++)
+    C03_SECOND(OP_PREDEC, --std::forward<Q>(q))
+    C03_SECOND(OP_POSTDEC, std::forward<Q>(q)--)
+    default:
+      if constexpr (std::is_integral_v<T> && std::is_integral_v<R>) {
+        switch (op2) {
+          C03_SECOND(OP_MOD, std::forward<Q>(q) %= d)
+          C03_SECOND(OP_AND, std::forward<Q>(q) &= d)
+          C03_SECOND(OP_OR, std::forward<Q>(q) |= d)
+          C03_SECOND(OP_XOR, std::forward<Q>(q) ^= d)
+          C03_SECOND(OP_SHL, std::forward<Q>(q) <<= d)
+          C03_SECOND(OP_SHR, std::forward<Q>(q) >>= d)
+        }
+      }
+  }
+#undef C03_SECOND
+  throw std::logic_error("chain: operator not available for this type");
+}
+
+struct ChainResult {
+  bool compiled = false;
+  uint64_t stored = 0, value = 0;
+};
+
+template <typename T, typename X, typename R>
+static inline ChainResult chain_apply(int op1, int op2, X& x, R d1, R d2) {
+  ChainResult cr;
+  auto k = [&](auto&& q) { cr.compiled = chain_second<T, decltype(q), R>(op2, std::forward<decltype(q)>(q), d2, &cr.value); };
+  switch (op1) {
+    case OP_ASSIGN: k(x = static_cast<T>(d1)); break;
+    case OP_ADD: k(x += d1); break;
+    case OP_SUB: k(x -= d1); break;
+    case OP_MUL: k(x *= d1); break;
+    case OP_DIV: k(x /= d1); break;
+    case OP_PREINC: k(++x); break;
+    case OP_PREDEC: k(--x); break;
+    default:
+      if constexpr (std::is_integral_v<T> && std::is_integral_v<R>) {
+        switch (op1) {
+          case OP_MOD: k(x %= d1); break;
+          case OP_AND: k(x &= d1); break;
+          case OP_OR: k(x |= d1); break;
+          case OP_XOR: k(x ^= d1); break;
+          case OP_SHL: k(x <<= d1); break;
+          case OP_SHR: k(x >>= d1); break;
+          default: throw std::logic_error("chain: bad first operator");
+        }
+      } else {
+        throw std::logic_error("chain: operator not available for this type");
+      }
+  }
+  if constexpr (std::is_class_v<X>) cr.stored = to_bits<T>(x.load());
+  else cr.stored = to_bits<T>(x);
+  return cr;
+}
+
+// 0 = both steps defined on the native type, 1 = the first is not, 2 = the second (on the intermediate value) is not
+template <typename T, typename R>
+static inline int chain_undefined_step(int op1, int op2, T init, R d1, R d2) {
+  if (op_is_binary(op1) && !op_defined<T, R>(op1, init, d1)) return 1;
+  T mid = from_bits<T>(native_op<T, R>(op1, init, d1).stored);
+  if (op_is_binary(op2) && !op_defined<T, R>(op2, mid, d2)) return 2;
+  return 0;
+}
+
+enum ChainVerdict { CH_OK = 0, CH_NOT_COMPILED, CH_UNDEFINED, CH_GUARD, CH_RAW_BYTES, CH_STORED, CH_VALUE };
+
+template <typename W, typename T, typename R>
+static inline ChainVerdict compare_chain(int endian, int op1, int op2, T init, R d1, R d2, Detail* det) {
+  constexpr int SZ = sizeof(T);
+  if (chain_undefined_step<T, R>(op1, op2, init, d1, d2) != 0) return CH_UNDEFINED;
+  T x = init;
+  ChainResult nat = chain_apply<T, T, R>(op1, op2, x, d1, d2);
+  if (!nat.compiled) throw std::logic_error("chain: expression is ill-formed on the native type");
+  alignas(16) unsigned char buf[32];
+  memset(buf, 0xA5, sizeof(buf));
+  unsigned char* at = buf + 9;
+  W* w = new (at) W(init);
+  ChainResult wr = chain_apply<T, W, R>(op1, op2, *w, d1, d2);
+  if (!wr.compiled) return CH_NOT_COMPILED;
+  auto fail = [&](ChainVerdict v, uint64_t got, uint64_t expected) {
+    det->got = got;
+    det->expected = expected;
+    return v;
+  };
+  for (int i = 0; i < 32; i++)
+    if ((i < 9 || i >= 9 + SZ) && buf[i] != 0xA5) return fail(CH_GUARD, i, 0);
+  // arithmetic on NaNs may produce different payloads in the two evaluations; a final plain assignment is bit-exact
+  auto same = [&](uint64_t a, uint64_t b) { return a == b || (op_is_arith(op2) && bits_is_nan<T>(a) && bits_is_nan<T>(b)); };
+  uint64_t bytes_now = decode_bytes(at, SZ, endian);
+  if (!same(bytes_now, nat.stored)) return fail(CH_RAW_BYTES, bytes_now, nat.stored);
+  if (wr.stored != bytes_now) return fail(CH_STORED, wr.stored, bytes_now);
+  if (!same(wr.value, nat.value)) return fail(CH_VALUE, wr.value, nat.value);
+  return CH_OK;
+}
+
+template <typename W, typename T>
+static inline ChainVerdict compare_chain_cell(int endian, int op1, int op2, int rk, uint64_t init_bits, uint64_t d1_bits, uint64_t d2_bits, Detail* det) {
+  T init = from_bits<T>(init_bits);
+  if (rk == 0) return compare_chain<W, T, T>(endian, op1, op2, init, from_bits<T>(d1_bits), from_bits<T>(d2_bits), det);
+  if (rk == 1) return compare_chain<W, T, int>(endian, op1, op2, init, static_cast<int>(static_cast<int64_t>(d1_bits)), static_cast<int>(static_cast<int64_t>(d2_bits)), det);
+  throw std::logic_error("chain: bad operand kind");
+}
+
+// case: n = [wrapper, first operator, second operator, operand kind (0 same type, 1 int), initial value bits, first operand, second operand]
+static void run_chain(const Case& c) {
+  uint64_t w = c.u(0), op1 = c.u(1), op2 = c.u(2), rk = c.u(3), init = c.u(4), d1 = c.u(5), d2 = c.u(6);
+  if (w >= 24 || op1 >= N_OPS || op2 >= N_OPS || !chain_first_op(static_cast<int>(op1)) || !chain_second_op(static_cast<int>(op2))) throw std::logic_error("chain: bad case");
+  if (init & ~mask_bits(8 * kScalarBytes[w % 8])) throw std::logic_error("initial value wider than the type");
+  with_wrapper(w, [&](auto tag) {
+    using W = typename decltype(tag)::W;
+    using T = typename decltype(tag)::T;
+    Detail det;
+    ChainVerdict v = compare_chain_cell<W, T>(static_cast<int>(w / 8), static_cast<int>(op1), static_cast<int>(op2), static_cast<int>(rk), init, d1, d2, &det);
+    if (v == CH_UNDEFINED) throw std::logic_error("chained operation undefined on the native type (outside the domain)");
+    if (v == CH_NOT_COMPILED) {
+      ctx().cls(cat("chain:not-expressible-on-the-wrapper (", kOpNames[op1], " yields a scalar prvalue)"));
+      return;
+    }
+    ctx().cls(cat("chain:", kOpNames[op1]));
+    if (v != CH_OK) {
+      const char* what = v == CH_GUARD ? "layout-guard" : v == CH_RAW_BYTES ? "raw-bytes" : v == CH_STORED ? "stored-value" : "expression-value";
+      // root cause class: the first operator (what it hands to the second one)
+      VFAIL(cat(what, ":", kOpNames[op1]), wrapper_name(w), " x=0x", std::hex, init, ": (x ", kOpNames[op1], " 0x", d1, ") ", kOpNames[op2], " 0x", d2, " (operand kind ", rk, "): ", what,
+          " got 0x", det.got, ", the native type gives 0x", det.expected, (v == CH_RAW_BYTES ? " - the second operator did not act on x" : ""));
+    }
+    int sz = kScalarBytes[w % 8];
+    bool top = (init >> (8 * sz - 1)) & 1;
+    uint64_t rev = 0;
+    for (int i = 0; i < sz; i++) rev |= ((init >> (8 * i)) & 0xFF) << (8 * (sz - 1 - i));
+    if (top || rev != init) ctx().nontrivial_case();
+  });
 }
 
 // ---------------------------------------------------------------- bswap family
@@ -735,6 +892,46 @@ static Case gen_ops() {
   return Case("ops").N(w).N(op).N(rk).N(init).N(operand);
 }
 
+static const int kChainFirst[13] = {OP_ASSIGN, OP_ADD, OP_SUB, OP_MUL, OP_DIV, OP_MOD, OP_AND, OP_OR, OP_XOR, OP_SHL, OP_SHR, OP_PREINC, OP_PREDEC};
+static const int kChainSecond[15] = {OP_ASSIGN, OP_ADD, OP_SUB, OP_MUL, OP_DIV, OP_MOD, OP_AND, OP_OR, OP_XOR, OP_SHL, OP_SHR, OP_PREINC, OP_POSTINC, OP_PREDEC, OP_POSTDEC};
+
+// which step of `(x op1 d1) op2 d2` the native type leaves undefined (0 = none), for operand kind rk
+static int chain_probe(uint64_t w, int op1, int op2, int rk, uint64_t init, uint64_t d1, uint64_t d2) {
+  int step = 0;
+  with_wrapper(w, [&](auto tag) {
+    using T = typename decltype(tag)::T;
+    T iv = from_bits<T>(init);
+    if (rk == 0) step = chain_undefined_step<T, T>(op1, op2, iv, from_bits<T>(d1), from_bits<T>(d2));
+    else step = chain_undefined_step<T, int>(op1, op2, iv, static_cast<int>(static_cast<int64_t>(d1)), static_cast<int>(static_cast<int64_t>(d2)));
+  });
+  return step;
+}
+// the operand "one" for operand kind rk: a valid divisor and shift count for every type
+static uint64_t chain_one(uint64_t scalar, int rk) { return (rk == 0 && scalar == 6) ? to_bits<float>(1.0f) : (rk == 0 && scalar == 7) ? to_bits<double>(1.0) : 1; }
+
+static Case gen_chain() {
+  uint64_t w = vg::below(24), scalar = w % 8;
+  int op1 = kChainFirst[vg::below(13)], op2 = kChainSecond[vg::below(15)];
+  int rk = static_cast<int>(vg::below(2));
+  uint64_t init = gen_scalar_bits(scalar);
+  auto operand = [&](int op) -> uint64_t {
+    if ((op == OP_SHL || op == OP_SHR) && vg::chance(3, 4)) return vg::below(scalar >= 4 ? 64 : 32);
+    if (vg::coin()) return vg::pick(operands_for(scalar, rk));
+    return rk == 0 ? gen_scalar_bits(scalar) : static_cast<uint64_t>(static_cast<int64_t>(static_cast<int32_t>(vg::interesting64())));
+  };
+  uint64_t d1 = operand(op1), d2 = operand(op2);
+  if (scalar >= 6) {
+    // bit operators, % and shifts do not exist for floats
+    if (op1 >= OP_MOD && op1 <= OP_SHR) op1 = OP_ADD + (op1 % 4);
+    if (op2 >= OP_MOD && op2 <= OP_SHR) op2 = OP_ADD + (op2 % 4);
+  }
+  // by construction: replace what the native type leaves undefined
+  if (chain_probe(w, op1, op2, rk, init, d1, d2) == 1) d1 = chain_one(scalar, rk);
+  if (chain_probe(w, op1, op2, rk, init, d1, d2) == 2) d2 = chain_one(scalar, rk);
+  ctx().cls(cat("chain-second:", kOpNames[op2]));
+  return Case("chain").N(w).N(op1).N(op2).N(rk).N(init).N(d1).N(d2);
+}
+
 static Case gen_bswap() {
   uint64_t fn = vg::below(N_BSWAP);
   return Case("bswap").N(fn).N(gen_bits(kBswap[fn].arg_bits));
@@ -849,6 +1046,43 @@ static void enum_ops(Enum& e) {
   if (skipped) e.x.exclude("operator/operand pairs undefined on the native type (division by zero, INT_MIN / -1, shift count out of range, bit operators on floats)", skipped);
   e.complete(cat("all 24 wrappers x 19 operations x 3 operand kinds x boundary value set squared; all 2^16 initial values of the six 16-bit wrappers x 19 operations x operand set",
       e.thorough() ? " x 3 operand kinds" : " (operand kind: same type)"));
+}
+
+// every wrapper x every (first, second) operator pair x both operand kinds x a boundary subset of initial values and operands
+static void enum_chain(Enum& e) {
+  uint64_t idx = 0, skipped = 0;
+  for (uint64_t w = 0; w < 24 && !e.stop; w++) {
+    uint64_t scalar = w % 8;
+    std::vector<uint64_t> all = values_for(scalar), inits;
+    for (size_t i = 0; i < all.size(); i += 3) inits.push_back(all[i]);
+    inits.push_back(all.back());
+    for (int op1 : kChainFirst) {
+      for (int op2 : kChainSecond) {
+        if (scalar >= 6 && ((op1 >= OP_MOD && op1 <= OP_SHR) || (op2 >= OP_MOD && op2 <= OP_SHR))) continue;
+        for (int rk = 0; rk < 2; rk++, idx++) {
+          if (!e.mine(idx)) continue;
+          std::vector<uint64_t> ds;
+          if (rk == 0 && scalar >= 6) {
+            for (double d : {1.0, 3.0, -0.5, 1e10}) ds.push_back(scalar == 6 ? to_bits<float>(static_cast<float>(d)) : to_bits<double>(d));
+          } else {
+            for (int64_t d : {1LL, 3LL, 13LL, 255LL, -2LL}) ds.push_back(rk == 0 ? (static_cast<uint64_t>(d) & mask_bits(8 * kScalarBytes[scalar])) : static_cast<uint64_t>(d));
+          }
+          for (uint64_t init : inits)
+            for (uint64_t d1 : ds)
+              for (uint64_t d2 : ds) {
+                if (chain_probe(w, op1, op2, rk, init, d1, d2) != 0) {
+                  skipped++;
+                  continue;
+                }
+                e.exec(Case("chain").N(w).N(op1).N(op2).N(rk).N(init).N(d1).N(d2));
+              }
+        }
+      }
+    }
+  }
+  if (skipped) e.x.exclude("chained operator/operand combinations undefined on the native type (shift count out of range, division by zero)", skipped);
+  e.complete("all 24 wrappers x 13 first operators (=, += -= *= /= %= &= |= ^= <<= >>=, ++x, --x) x 15 second operators (the same plus x++, x--) applied to the result of the "
+             "first x 2 operand kinds x a boundary subset of initial values x 4-5 operands squared");
 }
 
 static void enum_bswap(Enum& e) {
@@ -1192,6 +1426,7 @@ int main(int argc, char** argv) {
   std::vector<SubCheck> checks;
 #ifndef C03_SWEEP32
   checks.push_back({"ops", run_ops, gen_ops, 300000, 3000000, 100, enum_ops});
+  checks.push_back({"chain", run_chain, gen_chain, 120000, 1200000, 100, enum_chain});
   checks.push_back({"bswap", run_bswap, gen_bswap, 150000, 1500000, 100, enum_bswap});
   checks.push_back({"sext", run_sext, gen_sext, 60000, 600000, 100, enum_sext});
   checks.push_back({"ext", run_ext, gen_ext, 60000, 600000, 100, enum_ext});
